@@ -3,6 +3,8 @@
 #include "system/Thread.h"
 #include "message/Message.h"
 #include "util/SocketMultiplexer.h"
+#include "util/NetworkUtilityFunctions.h"
+#include <unistd.h>
 #include "c18.h"
 
 namespace vs { namespace c11 {
@@ -26,7 +28,8 @@ inline Plan Gen(uint64_t seed)
    //           2 = STRICTLY event-driven owner: it looks at its reply queue only after select() reported the wake-up socket readable, and then drains it
    //               (its G ops are no-ops): every reply -- including one queued before the thread was started -- must produce a wake-up byte
    const int ownloop = cfg.oneIn(3) ? 1 : (((sockets)&&(cfg.oneIn(3))) ? 2 : 0);
-   p.push_back("cfg prop=C11 sockets=" + I(sockets) + " ownloop=" + I(ownloop) + " ownersel=" + I(((sockets)&&(cfg.oneIn(3))) ? (1 + (int) cfg.below(2)) : 0) + " extras=" + I(extras) + thrc::SchedCfgStr(cfg));
+   p.push_back("cfg prop=C11 sockets=" + I(sockets) + " ownloop=" + I(ownloop) + " ownersel=" + I(((sockets)&&(cfg.oneIn(3))) ? (1 + (int) cfg.below(2)) : 0) + " extras=" + I(extras) + thrc::SchedCfgStr(cfg)
+               + " usersock=" + I(((sockets)&&(Rng(seed, "usersock").oneIn(4))) ? (1 + (int) Rng(seed, "usersock2").below(2)) : 0));   // 1/2: the internal thread also watches a user socket (for write-ready / for exceptions) that never becomes ready
    std::string s = "prog 0";
    const int pre = (int) wl.below(3); if (pre) s += " S" + I(pre);     // queued before the thread is started
    if (wl.oneIn(4)) s += " P" + I(1 + wl.below(2));                     // replies queued (by the subclass) before the thread is started
@@ -97,6 +100,17 @@ public:
       (void) numLeft;
       return B_NO_ERROR;
    }
+   // the documented way for an internal thread to watch sockets of its own next to its Message queue: here a socket that never becomes ready (its send buffer is full),
+   // created BEFORE the thread's wake-up sockets (so it has the lower descriptor), watched for write-ready (kind 1) or for exceptions (kind 2)
+   void WatchUnreadySocket(int kind)
+   {
+      if (CreateConnectedSocketPair(_userA, _userB, false).IsError()) return;
+      char junk[4096]; memset(junk, 'x', sizeof(junk));
+      for (int i=0; i<100000; i++) if (::write(_userA.GetFileDescriptor(), junk, sizeof(junk)) <= 0) break;   // fill until it would block
+      (void) RegisterInternalThreadSocket(_userA, (kind == 1) ? SOCKET_SET_WRITE : SOCKET_SET_EXCEPTION);
+      _sh->res->stats.inc((kind == 1) ? "runs_with_unready_user_socket_in_write_set" : "runs_with_unready_user_socket_in_exception_set");
+   }
+   ConstSocketRef _userA, _userB;
    // "a subclass decided to call SendMessageToOwner() in advance" (Thread.cpp): a reply queued while the internal thread is not running
    status_t PreReply(uint32 w) {return SendMessageToOwner(GetMessageFromPool(w));}
    // the shape MessageTransceiverThread uses: its own event loop on the wake-up mechanism, with timed waits
@@ -156,6 +170,7 @@ inline void Exec(const Plan & plan, RunResult & res)
       const bool sockets = (cfg.i("sockets", 1) != 0);
       EchoThread t(sockets, sockets ? (int) cfg.i("ownloop", 0) : (cfg.i("ownloop", 0) ? 1 : 0), &sh);
       const bool ownerSel = (sockets)&&(cfg.i("ownersel", 0) != 0), strictOwner = (sockets)&&(cfg.i("ownersel", 0) == 2);
+      if ((sockets)&&(cfg.i("usersock", 0) > 0)&&(cfg.i("ownloop", 0) != 2)) t.WatchUnreadySocket((int) cfg.i("usersock", 0));
       SocketMultiplexer ownerSm;
       auto Send = [&](int sender, int k) {for (int i=0; i<k; i++) {const uint32 w = (uint32)(sender*100000) + sh.nextSeq[sender]++; sh.sendsInFlight++; if (t.SendMessageToInternalThread(GetMessageFromPool(w)).IsOK()) {sh.sentTo[sender].push_back(w); res.stats.inc("msgs_sent"); sh.sendsDone++; sh.sendsInFlight--;} else thr::ReportAndExit("send_failed", "SendMessageToInternalThread failed"); if (i+1 < k) thr::Yield();}};
       auto TotalSent = [&]() {size_t n = 0; for (auto & v : sh.sentTo) n += v.size(); return n;};
